@@ -3,7 +3,7 @@
 # through the build overlay (never touching /repo) and records the outcome in meta.json / README.md.
 cd /verif
 declare -A CROSS
-CROSS[C04-c]="C03"; CROSS[C10-d]="C18"; CROSS[C17-d]="C16"; CROSS[C07-c]="C10"; CROSS[C01-f]="C20"; CROSS[C20-f]="C16"; CROSS[C07-e]="C02"; CROSS[C13-e]="C16"; CROSS[C05-f]="C06"; CROSS[C01-h]="C16"; CROSS[C07-g]="C02"; CROSS[C09-g]="C04"; CROSS[C10-g]="C01"; CROSS[C10-h]="C18"; CROSS[C12-g]="C20"; CROSS[C13-g]="C20"; CROSS[C15-h]="C20"; CROSS[C16-g]="C20"; CROSS[C20-g]="C02"; CROSS[C20-h]="C02"; CROSS[C08-h]="C05"; CROSS[C05-i]="C20"; CROSS[C05-j]="C15"; CROSS[C08-i]="C06"; CROSS[C08-j]="C18"; CROSS[C10-j]="C18"; CROSS[C18-j]="C16"; CROSS[C02-i]="C16"; CROSS[C01-k]="C02"; CROSS[C01-l]="C02"; CROSS[C09-k]="C10"; CROSS[C09-l]="C08"; CROSS[C20-l]="C18"; CROSS[C05-l]="C12"; CROSS[C11-l]="C06"; CROSS[C10-l]="C18"; CROSS[C07-m]="C01"; CROSS[C07-n]="C10"; CROSS[C17-n]="C14"; CROSS[C01-m]="C02"; CROSS[C03-n]="C04"; CROSS[C08-n]="C10"; CROSS[C15-m]="C16"; CROSS[C10-n]="C18"
+CROSS[C04-c]="C03"; CROSS[C10-d]="C18"; CROSS[C17-d]="C16"; CROSS[C07-c]="C10"; CROSS[C01-f]="C20"; CROSS[C20-f]="C16"; CROSS[C07-e]="C02"; CROSS[C13-e]="C16"; CROSS[C05-f]="C06"; CROSS[C01-h]="C16"; CROSS[C07-g]="C02"; CROSS[C09-g]="C04"; CROSS[C10-g]="C01"; CROSS[C10-h]="C18"; CROSS[C12-g]="C20"; CROSS[C13-g]="C20"; CROSS[C15-h]="C20"; CROSS[C16-g]="C20"; CROSS[C20-g]="C02"; CROSS[C20-h]="C02"; CROSS[C08-h]="C05"; CROSS[C05-i]="C20"; CROSS[C05-j]="C15"; CROSS[C08-i]="C06"; CROSS[C08-j]="C18"; CROSS[C10-j]="C18"; CROSS[C18-j]="C16"; CROSS[C02-i]="C16"; CROSS[C01-k]="C02"; CROSS[C01-l]="C02"; CROSS[C09-k]="C10"; CROSS[C09-l]="C08"; CROSS[C20-l]="C18"; CROSS[C05-l]="C12"; CROSS[C11-l]="C06"; CROSS[C10-l]="C18"; CROSS[C07-m]="C01"; CROSS[C07-n]="C10"; CROSS[C17-n]="C14"; CROSS[C01-m]="C02"; CROSS[C03-n]="C04"; CROSS[C08-n]="C10"; CROSS[C15-m]="C16"; CROSS[C10-n]="C18"; CROSS[C02-o]="C10"; CROSS[C02-p]="C01"; CROSS[C06-p]="C15"; CROSS[C08-o]="C18"; CROSS[C08-p]="C06"; CROSS[C14-o]="C20"; CROSS[C15-o]="C05"
 for d in ${SEEDS:-seeded/*/}; do
   n=$(basename $d)
   [ -f $d/meta.json ] || continue
